@@ -11,6 +11,8 @@ META = {
     "level_text": "Only necessary structural conditions are decided; the behavioural statement itself is declared not applicable to static analysis.",
 }
 
+META["explanation"] += " " + 'Also: clamp / power-of-two typestate of every resize_target store, iterator continuation discipline, emptiness walks classify every loaded word (destroy succeeds iff empty).'
+
 
 RULES = [
     ("C08.valid", lambda c, r: lfht.rule_valid(c, r, "C08.valid")),
